@@ -34,6 +34,11 @@ import (
 type StdioLife struct {
 	Captain  []COp         `json:"captain,omitempty"` // crew operations, one captain message, first
 	Messages []interface{} `json:"messages,omitempty"`
+	// Captain2: a second captain message, sent after the first Pos
+	// messages (two operations on one machine with or without a move in
+	// between)
+	Captain2 []COp `json:"captain2,omitempty"`
+	Pos      int   `json:"pos,omitempty"`
 }
 
 type StdioCase struct {
@@ -63,9 +68,25 @@ func genStdio(t *rapid.T) StdioCase {
 				life.Captain = append(life.Captain, op)
 			}
 		}
+		life.Captain = loneFailing(life.Captain)
+		if len(life.Captain) > 0 && rapid.IntRange(0, 2).Draw(t, l+".second") == 1 {
+			seen := map[string]bool{}
+			for j := rapid.IntRange(1, 2).Draw(t, l+".nops2"); j > 0; j-- {
+				op := genCOp(t, fmt.Sprintf("%s.d%d", l, j), true, true)
+				if seen[op.Mid] {
+					continue
+				}
+				seen[op.Mid] = true
+				if op.Kind == "setState" && !op.State {
+					op.State = true
+				}
+				life.Captain2 = append(life.Captain2, op)
+			}
+			life.Captain2 = loneFailing(life.Captain2)
+		}
 		// an idle life (no message at all) is the interesting kind
 		if li > 0 && rapid.IntRange(0, 2).Draw(t, l+".idle") == 0 {
-			life.Captain = nil
+			life.Captain, life.Captain2 = nil, nil
 		} else {
 			for j := rapid.IntRange(0, 4).Draw(t, l+".nm"); j > 0; j-- {
 				m := map[string]interface{}{"inc": float64(rapid.IntRange(1, 3).Draw(t, fmt.Sprintf("%s.m%d", l, j)))}
@@ -74,6 +95,9 @@ func genStdio(t *rapid.T) StdioCase {
 				}
 				life.Messages = append(life.Messages, m)
 			}
+		}
+		if len(life.Captain2) > 0 {
+			life.Pos = rapid.IntRange(0, len(life.Messages)).Draw(t, l+".pos")
 		}
 		c.Lives = append(c.Lives, life)
 	}
@@ -214,8 +238,16 @@ func checkStdio(c StdioCase) (v ev.Verdict) {
 			js, _ := json.Marshal(captainMsg(life.Captain))
 			lines = append(lines, string(js))
 		}
-		for _, m := range life.Messages {
+		for mi, m := range life.Messages {
+			if len(life.Captain2) > 0 && mi == life.Pos {
+				js, _ := json.Marshal(captainMsg(life.Captain2))
+				lines = append(lines, string(js))
+			}
 			js, _ := json.Marshal(m)
+			lines = append(lines, string(js))
+		}
+		if len(life.Captain2) > 0 && life.Pos >= len(life.Messages) {
+			js, _ := json.Marshal(captainMsg(life.Captain2))
 			lines = append(lines, string(js))
 		}
 		last := li == len(c.Lives)-1
@@ -307,7 +339,7 @@ func workDirSio() string {
 }
 
 func TestC15Stdio(t *testing.T) {
-	ev.Run(t, ev.Opts{Property: "C15", Name: "stdio", Quick: 150, Thorough: 6000, ShrinkTime: "10s",
+	ev.Run(t, ev.Opts{Property: "C15", Name: "stdio", Quick: 600, Thorough: 8000, ShrinkTime: "10s",
 		Rule: "the repository's own store (sio.Stdio + JSONStore, used the way sio/siostd uses them): 2-4 lives of a host over one state file, counter machines created / re-stated / re-specified / deleted by captain messages, routed and broadcast increments, lives that see no message at all; after every life the state file must describe the live crew, and the last life's crew and answers must be those of a host that was never stopped; non-trivial = >= 2 lives"},
 		genStdio, checkStdio)
 }
@@ -316,7 +348,7 @@ func TestC15Stdio(t *testing.T) {
 // boundary - here by the host's own store, and also at a boundary where
 // no message has arrived since the last reload - must not be observable.
 func TestC09Stdio(t *testing.T) {
-	ev.Run(t, ev.Opts{Property: "C09", Name: "stdio", Quick: 120, Thorough: 4000, ShrinkTime: "10s",
+	ev.Run(t, ev.Opts{Property: "C09", Name: "stdio", Quick: 600, Thorough: 8000, ShrinkTime: "10s",
 		Rule: "host-level persist/reload: 2-4 lives of an sio host (sio.Stdio + JSONStore as in sio/siostd) over one state file, some lives without any message; after every life the state file must describe the live crew, and the last life's crew and answers must be those of a host that was never stopped; non-trivial = >= 2 lives"},
 		genStdio, checkStdio)
 }
